@@ -23,7 +23,7 @@ try:
     theirs = json.load(open('/tmp/theirs_kf.json'))
 except Exception:
     theirs = {'findings': []}
-sig = lambda f: (f['key'], json.dumps(f.get('match'), sort_keys=True))
+sig = lambda f: f['key']   # existing keys are never widened by a merge: edit KNOWN_FINDINGS.json by hand for that
 have = {sig(f) for f in ours['findings']}
 added = []
 for f in theirs['findings']:
